@@ -2,9 +2,13 @@ import ZV.Model.C15
 /-! line protocol for C15 (topic `c15`); byte strings in `Wire.parseBytes` syntax; string lists `~` | `a,b,…`.
     cs-parse <in> <jsonok> <seq> <np> <blocked>                        → ok seq= np= blocked= issuers= | err
     cs-check <in> <jsonok> <seq> <np> <blocked> <serial> <hash>        → err | nil | hit <serial>
-    oc-parse <recs> <doc>  (recs = `X` (JSON rejected) | list of `N` | sn/pn/sd/pd/serial/id ; `!` = decode error;
+    b64-dec <str>   base64.StdEncoding.DecodeString                    → ok <bytes> | err <bytes returned with the error>
+    b64-enc <bytes> base64.StdEncoding.EncodeToString                  → <str>
+    oc-name <str> <ntbl>  decodePkixName                               → ok <Name.String()> <raw> | err
+    oc-parse <recs> <ntbl> <doc>  (recs = `X` (JSON rejected) | list of `N` | subject/pubKeyHash/serialNumber/issuerName
+                            (the raw JSON string fields); ntbl entry = der=Name.String() | der=! (asn1 rejects);
                             <doc> = the JSON document, used by the Go side only)          → ok blocked= issuers= | err
-    oc-check <recs> <doc> <pool index> <serial> <issuer> <rawSubject> <spkiHash>          → err | nil | blk | ser <n>
+    oc-check <recs> <ntbl> <doc> <pool index> <serial> <issuer> <rawSubject> <spkiHash>   → err | nil | blk | ser <n>
     ms-parse <in> <tbl>  (tbl entry = blob=issuer:serial | blob=!)     → ok issuers= | err
     ms-check <in> <tbl> <pool index> <serial> <issuer>                 → err | nil | hit <n> -/
 namespace ZV.C15
@@ -37,21 +41,36 @@ def parseHdr (ok seq np blocked : String) : Option Hdr :=
   | some a, some b, some c => some ⟨ok == "1", a, b, c⟩
   | _, _, _ => none
 
-def parseDec (s : String) : Option Dec :=
-  if s == "!" then some .bad else (parseBytes s).map .good
-
 def parseRec (s : String) : Option Rec :=
-  if s == "N" then some ⟨true, false, false, .bad, .bad, 0, .bad⟩
+  if s == "N" then some ⟨true, [], [], [], []⟩
   else
     match s.splitOn "/" with
-    | [sn, pn, sd, pd, ser, id] =>
-      match parseDec sd, parseDec pd, ser.toNat?, parseDec id with
-      | some sd, some pd, some ser, some id => some ⟨false, sn == "1", pn == "1", sd, pd, ser, id⟩
+    | [sj, pk, ser, iss] =>
+      match parseBytes sj, parseBytes pk, parseBytes ser, parseBytes iss with
+      | some sj, some pk, some ser, some iss => some ⟨false, sj, pk, ser, iss⟩
       | _, _, _, _ => none
     | _ => none
 
 def parseRecs (s : String) : Option (List Rec) :=
   if s == "~" then some [] else (s.splitOn ",").mapM parseRec
+
+def parseNEntry (s : String) : Option (Bytes × Option Str) :=
+  match s.splitOn "=" with
+  | [b, v] =>
+    match parseBytes b with
+    | none => none
+    | some der =>
+      if v == "!" then some (der, none)
+      else (parseBytes v).map (fun x => (der, some x))
+  | _ => none
+
+def parseNTbl (s : String) : Option (List (Bytes × Option Str)) :=
+  if s == "~" then some [] else (s.splitOn ",").mapM parseNEntry
+
+def ntblFun (t : List (Bytes × Option Str)) (b : Bytes) : Option Str :=
+  match t.find? (fun e => decide (e.1 = b)) with
+  | some (_, v) => v
+  | none => none
 
 def parseTblEntry (s : String) : Option (Bytes × Option CertInfo) :=
   match s.splitOn "=" with
@@ -96,21 +115,37 @@ def handle (args : List String) : String :=
       | .err => "err"
       | .panic => "panic"
     | _, _, _, _ => "bad-op"
-  | ["oc-parse", "X", _] => "err"          -- the JSON layer rejected the document
-  | ["oc-check", "X", _, _, _, _, _, _] => "err"
-  | ["oc-parse", recs, _] =>
-    match parseRecs recs with
-    | some recs =>
-      match ocParse recs with
+  | ["b64-dec", s] =>
+    match parseBytes s with
+    | some s => (if (b64Decode s).2 then "err " else "ok ") ++ toHex (b64Decode s).1
+    | none => "bad-op"
+  | ["b64-enc", b] =>
+    match parseBytes b with
+    | some b => toHex (b64Encode b)
+    | none => "bad-op"
+  | ["oc-name", name, ntbl] =>
+    match parseBytes name, parseNTbl ntbl with
+    | some name, some t =>
+      match decodePkixName name (ntblFun t) with
+      | .ok (s, raw) => "ok " ++ toHex s ++ " " ++ toHex raw
+      | .err => "err"
+      | .panic => "panic"
+    | _, _ => "bad-op"
+  | ["oc-parse", "X", _, _] => "err"          -- the JSON layer rejected the document
+  | ["oc-check", "X", _, _, _, _, _, _, _] => "err"
+  | ["oc-parse", recs, ntbl, _] =>
+    match parseRecs recs, parseNTbl ntbl with
+    | some recs, some t =>
+      match ocParse recs (ntblFun t) with
       | .ok c => "ok blocked=" ++ (if c.blocked.isEmpty then "~" else ",".intercalate (c.blocked.map (fun b => toHex b.1 ++ "/" ++ toHex b.2))) ++
                  " issuers=" ++ showMap c.issuers
       | .err => "err"
       | .panic => "panic"
-    | none => "bad-op"
-  | ["oc-check", recs, _, _, serial, issuer, raw, spki] =>
-    match parseRecs recs, parseBytes issuer, parseInt serial, parseBytes raw, parseBytes spki with
-    | some recs, some issuer, some serial, some raw, some spki =>
-      match ocParse recs with
+    | _, _ => "bad-op"
+  | ["oc-check", recs, ntbl, _, _, serial, issuer, raw, spki] =>
+    match parseRecs recs, parseNTbl ntbl, parseBytes issuer, parseInt serial, parseBytes raw, parseBytes spki with
+    | some recs, some t, some issuer, some serial, some raw, some spki =>
+      match ocParse recs (ntblFun t) with
       | .ok c =>
         (match ocCheck c issuer serial raw spki with
          | some .blockedKey => "blk"
@@ -118,7 +153,7 @@ def handle (args : List String) : String :=
          | none => "nil")
       | .err => "err"
       | .panic => "panic"
-    | _, _, _, _, _ => "bad-op"
+    | _, _, _, _, _, _ => "bad-op"
   | ["ms-parse", inp, tbl] =>
     match parseBytes inp, parseTbl tbl with
     | some inp, some t =>
